@@ -109,7 +109,8 @@ def first_max(cost, y, x, r) -> "bool":
 def _(self, cv, img_left, img_right):
     types(self={"@attrs": {"_invalid_disparity": "float"}},
           cv={"vars": {"cost_volume": "f32[:,:,:]", "validity_mask": "u16[:,:]", "confidence_measure": "f32[:,:,:]"},
-              "coords": {"disp": "f64[:]", "row": "i64[:]", "col": "i64[:]"}, "attrs": {"type_measure": "str"}},
+              "coords": {"disp": "f64[:]", "row": "i64[:]", "col": "i64[:]"},
+              "attrs": {"type_measure": "str", "offset_row_col": "int"}},
           img_left="opaque", img_right="opaque")
     requires("shapes", cv.coords["disp"].data.shape[0] == cv["cost_volume"].data.shape[2], cv["cost_volume"].data.shape[2] >= 1,
              cv["validity_mask"].data.shape[0] == cv["cost_volume"].data.shape[0],
@@ -181,7 +182,8 @@ def _(rng):
                      "confidence_measure": (["row", "col", "indicator"], rng.random((h, w, 2)).astype(np.float32))},
                     coords={"row": np.arange(h), "col": np.arange(w), "disp": np.arange(d0, d0 + nd).astype(np.float64),
                             "indicator": ["a", "b"]},
-                    attrs={"type_measure": measure})
+                    attrs={"type_measure": measure, "offset_row_col": int(rng.integers(0, 3)), "window_size": 3, "subpixel": 1,
+                           "band_correl": None, "cmax": 10, "crs": None, "transform": None})
     inv = [np.nan, -9999.0, 0.0][rng.integers(0, 3)]
     me = WinnerTakesAll.__new__(WinnerTakesAll)
     me._invalid_disparity = inv
